@@ -115,6 +115,23 @@ func (impl Implementation) Dgesvd(jobU, jobVT lapack.SVDJob, m, n int, a []float
 		return true
 	}
 
+	// Check the slice lengths before the workspace size computation below
+	// starts using work[0].
+	if lwork != -1 {
+		if len(a) < (m-1)*lda+n {
+			panic(shortA)
+		}
+		if len(s) < minmn {
+			panic(shortS)
+		}
+		if (len(u) < (m-1)*ldu+m && wantua) || (len(u) < (m-1)*ldu+minmn && wantus) {
+			panic(shortU)
+		}
+		if (len(vt) < (n-1)*ldvt+n && wantva) || (len(vt) < (minmn-1)*ldvt+n && wantvs) {
+			panic(shortVT)
+		}
+	}
+
 	// Compute optimal workspace size for subroutines.
 	opts := string(jobU) + string(jobVT)
 	mnthr := impl.Ilaenv(6, "DGESVD", opts, m, n, 0, 0)
@@ -363,19 +380,6 @@ func (impl Implementation) Dgesvd(jobU, jobVT lapack.SVDJob, m, n int, a []float
 	if lwork == -1 {
 		work[0] = float64(maxwrk)
 		return true
-	}
-
-	if len(a) < (m-1)*lda+n {
-		panic(shortA)
-	}
-	if len(s) < minmn {
-		panic(shortS)
-	}
-	if (len(u) < (m-1)*ldu+m && wantua) || (len(u) < (m-1)*ldu+minmn && wantus) {
-		panic(shortU)
-	}
-	if (len(vt) < (n-1)*ldvt+n && wantva) || (len(vt) < (minmn-1)*ldvt+n && wantvs) {
-		panic(shortVT)
 	}
 
 	// Perform decomposition.
